@@ -266,7 +266,7 @@ func evalC10(c *Ctx, cs EnumCase) EnumResult {
 	for _, sq := range a.Seqs {
 		var steps []wStep
 		var names []string
-		if a.Kind != "follower-expiry" && a.Kind != "demoted-expiry" { // there the sequence holds parameters, not alphabet indices
+		if a.Kind != "follower-expiry" && a.Kind != "demoted-expiry" && a.Kind != "quit-leader-pending-ack" { // there the sequence holds parameters, not alphabet indices
 			for _, i := range sq {
 				steps = append(steps, alpha[i])
 				names = append(names, alpha[i].String())
@@ -352,6 +352,15 @@ func evalC10(c *Ctx, cs EnumCase) EnumResult {
 			distinct[fmt.Sprint(sq)] = true
 			if msg != "" {
 				vs = append(vs, explore.Violation{Sig: "C10:demoted-leader-ended-hold-on-its-own-clock", Msg: msg})
+			}
+		case "quit-leader-pending-ack":
+			msg, e := runQuitLeaderPendingAck(sq[0], sq[1] == 1, sq[2])
+			if e != "" {
+				return EnumResult{Err: e}
+			}
+			distinct[fmt.Sprint(sq)] = true
+			if msg != "" {
+				vs = append(vs, explore.Violation{Sig: "C10:ex-leader-granted-after-quitting", Msg: msg})
 			}
 		case "follower-expiry":
 			msg, e := runFollowerExpiry(sq[0])
@@ -530,6 +539,98 @@ func runDemotedExpiry(E int, immediate bool) (msg string, err string) {
 	return
 }
 
+// runQuitLeaderPendingAck: leader + one follower; an acknowledgement-required LOCK is waiting for the follower
+// (whose acknowledgement is held back) when the leader leaves its role in QuitLeader's order (state, forwarding,
+// replication manager). fate 0: the acknowledgement never arrives; 1: it arrives 1 s after the role change;
+// 2: the replication link breaks with it in flight. From then on the node is not the leader: it must not answer
+// SUCCED to the waiting request nor keep it as a holder.
+func runQuitLeaderPendingAck(fate int, fromQueue bool, mode int) (msg string, err string) {
+	rt := vrt.Run(vrt.Options{MaxPoints: 400_000_000}, func() {
+		cl, e := StartLeaderFollowers(1, func(i int, cfg *hapi.Config) { cfg.AckMode = uint(mode) })
+		if e != nil {
+			err = e.Error()
+			return
+		}
+		leader := cl.Nodes[0]
+		conn, _ := wire.Dial(cl.Addrs[0])
+		_ = conn.Send(make64(protocol.COMMAND_PING))
+		conn.TakeBin()
+		if fromQueue {
+			_ = conn.Send(wire.BinFrame(withEF(hapi.Cmd{Type: 1, Req: 50, Key: 1, Id: 8, Expried: 600}, efZeroAof)))
+			conn.TakeBin()
+		}
+		vrt.AdvanceTo(vrt.Elapsed() + 500*ms)
+		var repl *vnet.Link
+		for _, l := range vnet.Links() {
+			if l.DialGroup == "n1" && l.ListenAddr == nodeAddr(0) {
+				repl = l
+			}
+		}
+		if repl == nil {
+			err = "no replication link"
+			return
+		}
+		repl.AtoB.Hold = true
+		t0 := vrt.Elapsed()
+		_ = conn.Send(wire.BinFrame(hapi.Cmd{Type: 1, Req: 1, Key: 1, Id: 1, Timeout: 8, TimeoutFlag: tfAck, Expried: 60}))
+		if fromQueue {
+			vrt.AdvanceTo(t0 + 100*ms)
+			_ = conn.Send(wire.BinFrame(hapi.Cmd{Type: 2, Req: 52, Key: 1, Id: 8}))
+		}
+		vrt.AdvanceTo(t0 + 300*ms)
+		if r := pick(conn.TakeBin(), 1); len(r) != 0 {
+			err = fmt.Sprintf("setup: the acknowledgement-required request was answered %s before any acknowledgement", binStr(r))
+			return
+		}
+		leader.Poke("quitleader")
+		vrt.AdvanceTo(t0 + 600*ms)
+		if st := leader.StateName(); st == "leader" {
+			err = "setup: the node is still leader after the role change"
+			return
+		}
+		quitAt := vrt.Elapsed()
+		switch fate {
+		case 1:
+			vrt.AdvanceTo(t0 + 1600*ms)
+			repl.AtoB.Hold = false
+		case 2:
+			vrt.AdvanceTo(t0 + 1600*ms)
+			repl.Break()
+		}
+		vrt.AdvanceTo(t0 + 12*sec)
+		conn.Pump()
+		mine := pick(conn.TakeBin(), 1)
+		var k1 [16]byte
+		k1[15] = 1
+		held := false
+		if ks := leader.Snapshot().Key(0, k1); ks != nil {
+			for _, h := range ks.Holds {
+				if h.LockId[15] == 1 {
+					held = true
+				}
+			}
+		}
+		what := fmt.Sprintf("leader with one follower, ack mode %d, acknowledgement-required LOCK (from the queue: %v) waiting for the follower; the node leaves the leader role in QuitLeader's order at +%d ms; follower acknowledgement fate %d", mode, fromQueue, (quitAt-t0)/ms, fate)
+		for _, r := range mine {
+			if r.Result == 0 {
+				msg = what + ": the node, no longer leader, answered the waiting request SUCCED"
+				return
+			}
+		}
+		if held {
+			msg = what + ": the node, no longer leader, keeps LockId 1 as a holder it granted by itself"
+			return
+		}
+		if len(mine) != 1 {
+			msg = fmt.Sprintf("%s: the waiting request got %d terminal replies (%s)", what, len(mine), binStr(mine))
+		}
+	})
+	if rt.Crash != nil {
+		err = "crash: " + rt.Crash.Value
+	}
+	return
+}
+
 // runNoLeader: a node forced into a non-leader state that knows no leader refuses every request with
 // STATE_ERROR (binary) / an error (text) and changes nothing.
 func runNoLeader(steps []wStep, text bool, state int) (msg string, err string) {
@@ -645,6 +746,15 @@ func c10Cases(quick bool) []EnumCase {
 	for _, E := range []int{4, 6, 9, 30} {
 		for imm := 0; imm <= 1; imm++ {
 			out = append(out, mkCase(fmt.Sprintf("demoted-expiry/E%d/immediate=%d", E, imm), c10Arg{Kind: "demoted-expiry", Seqs: [][]int{{E, imm}}}))
+		}
+	}
+	// a leader leaves its role the way ArbiterManager.QuitLeader does it while acknowledgement-required requests
+	// wait for their followers: fates of the follower's acknowledgement x fresh grant / grant from the queue x mode
+	for _, fate := range []int{0, 1, 2} {
+		for q := 0; q <= 1; q++ {
+			for mode := 0; mode <= 1; mode++ {
+				out = append(out, mkCase(fmt.Sprintf("quit-leader-pending-ack/fate%d/queue=%d/mode%d", fate, q, mode), c10Arg{Kind: "quit-leader-pending-ack", Seqs: [][]int{{fate, q, mode}}}))
+			}
 		}
 	}
 	return out
